@@ -14,10 +14,10 @@ from cpython.datetime cimport datetime, timedelta
 import cython
 
 
-cpdef int project_date_to_idx(
+cpdef long long project_date_to_idx(
     object date,
     object start,
-    int granularity
+    long long granularity
 ):
     """
     Fast project date to index conversion.
@@ -31,7 +31,7 @@ cpdef int project_date_to_idx(
         Slot index
     """
     cdef double diff_seconds
-    cdef int idx
+    cdef long long idx
 
     if start is None:
         return 0
@@ -42,14 +42,14 @@ cpdef int project_date_to_idx(
     except AttributeError:
         diff_seconds = <double>(date - start)
 
-    idx = <int>(diff_seconds / <double>granularity)
+    idx = <long long>(diff_seconds / <double>granularity)
     return idx
 
 
 cpdef object project_idx_to_date(
-    int idx,
+    object idx,
     object start,
-    int granularity
+    long long granularity
 ):
     """
     Fast project index to date conversion.
@@ -62,13 +62,12 @@ cpdef object project_idx_to_date(
     Returns:
         Datetime for the index, or None if start is None
     """
-    cdef int seconds
-
     if start is None:
         return None
 
-    seconds = idx * granularity
-    return start + timedelta(seconds=seconds)
+    # idx stays a Python integer: a C int overflows beyond 2**31 seconds (68 years
+    # of horizon) and silently produced dates in the past
+    return start + timedelta(seconds=idx * granularity)
 
 
 cpdef int scoreboard_size(
